@@ -626,3 +626,135 @@ def check_lock_pair(ctx):
                            f'later parse in another thread blocks for ever')
     ctx.floor('LOCK-PAIR', n, 1, 'uses of a module-level lock in '
               'valjean.eponine.tripoli4')
+
+
+# ------------------------------------------------------------ READ-LOOP ---
+
+def _read_loop_verdict(loop):
+    """None when the while loop reads nothing; else (ok, reason).  A loop
+    that reads a file with readline() / read() must be able to stop at the
+    END OF THE FILE, where readline() returns '' for ever: either its
+    condition is the truth value of what was read, or its body leaves
+    (break / return / raise) under a test that the empty string satisfies
+    (`not line`, `line == ''`, `len(line) == 0`)."""
+    reads = [c for st in loop.body + [loop.test] for c in ast.walk(st)
+             if isinstance(c, ast.Call) and call_name(c) in (
+                 'readline', 'read', 'readlines')]
+    if not reads:
+        return None
+    # names holding what was read
+    read_vars = set()
+    for st in loop.body:
+        for node in ast.walk(st):
+            if isinstance(node, (ast.Assign, ast.AugAssign)) and any(
+                    c in reads for c in ast.walk(node.value)):
+                tgts = node.targets if isinstance(node, ast.Assign) else \
+                    [node.target]
+                for tgt in tgts:
+                    if isinstance(tgt, ast.Name) and isinstance(
+                            node, ast.Assign):
+                        read_vars.add(tgt.id)
+            if isinstance(node, ast.NamedExpr) and any(
+                    c in reads for c in ast.walk(node.value)):
+                read_vars.add(node.target.id)
+
+    def empty_test(test, pol=True):
+        # does (test == pol) hold for an empty line?
+        if isinstance(test, ast.UnaryOp) and isinstance(test.op, ast.Not):
+            if isinstance(test.operand, ast.Name) and \
+                    test.operand.id in read_vars:
+                return pol
+            return empty_test(test.operand, not pol)
+        if isinstance(test, ast.Name) and test.id in read_vars:
+            return not pol
+        if isinstance(test, ast.Compare) and len(test.ops) == 1:
+            left, op, right = test.left, test.ops[0], test.comparators[0]
+            if isinstance(left, ast.Name) and left.id in read_vars and \
+                    isinstance(right, ast.Constant) and right.value in (
+                        '', b''):
+                return pol if isinstance(op, ast.Eq) else \
+                    (not pol) if isinstance(op, ast.NotEq) else False
+            if isinstance(left, ast.Call) and call_name(left) == 'len' and \
+                    left.args and isinstance(left.args[0], ast.Name) and \
+                    left.args[0].id in read_vars and isinstance(
+                        right, ast.Constant) and right.value == 0:
+                return pol if isinstance(op, ast.Eq) else False
+        if isinstance(test, ast.BoolOp) and isinstance(test.op, ast.Or):
+            return pol and any(empty_test(v, True) for v in test.values)
+        return False
+
+    # (a) the loop condition fails on an empty read
+    if empty_test(loop.test, False):
+        return True, 'the condition is false for an empty read'
+    if isinstance(loop.test, ast.NamedExpr) or any(
+            isinstance(n, ast.NamedExpr) and any(
+                c in reads for c in ast.walk(n.value))
+            for n in ast.walk(loop.test)):
+        return True, 'the condition is the truth value of the read'
+    # (b) an exit guarded by an emptiness test
+    for st in loop.body:
+        for node in ast.walk(st):
+            if isinstance(node, ast.If) and empty_test(node.test, True) and \
+                    any(isinstance(x, (ast.Break, ast.Return, ast.Raise))
+                        for b in node.body for x in ast.walk(b)):
+                return True, f'exit under `{txt(node.test)}`'
+    return False, 'no exit for an empty read: at the end of the file ' \
+                  'readline() returns the empty string for ever'
+
+
+_READ_LOOP_CANARY = """
+def bad(fil):
+    state = fil.readline()
+    while "COUNTER" not in state:
+        state += fil.readline()
+    return state
+def good(fil):
+    state = line = fil.readline()
+    while "COUNTER" not in line:
+        line = fil.readline()
+        if not line:
+            raise ValueError('truncated')
+        state += line
+    return state
+def good2(fil):
+    while (line := fil.readline()):
+        pass
+"""
+
+
+def check_read_loop(ctx):
+    """No hang on a truncated listing: every `while` loop of the scanner /
+    parser layers that reads the file has an end-of-file exit.  The shipped
+    code iterates with `for line in fil` (expected instances: 0); the rule
+    is exercised on a built-in positive and two negatives at every run."""
+    program = ctx.program
+    canary = ast.parse(_READ_LOOP_CANARY)
+    verdicts = {}
+    for fun in canary.body:
+        loop = next(n for n in ast.walk(fun) if isinstance(n, ast.While))
+        verdicts[fun.name] = _read_loop_verdict(loop)
+    if verdicts['bad'] is None or verdicts['bad'][0] is not False or \
+            not verdicts['good'][0] or not verdicts['good2'][0]:
+        raise AnalysisError(f'READ-LOOP canary failed: {verdicts}')
+    n_loops = n_read = 0
+    for mod in program.modules.values():
+        if not (mod.name.startswith('valjean.eponine.tripoli4') or
+                mod.name.startswith('valjean.eponine.apollo3')):
+            continue
+        for func in mod.functions.values():
+            for node in walk_local(func.node):
+                if not isinstance(node, ast.While):
+                    continue
+                n_loops += 1
+                res = _read_loop_verdict(node)
+                if res is None:
+                    continue
+                n_read += 1
+                program.consulted.add(mod.relpath)
+                ctx.decide('READ-LOOP', func,
+                           f'while {txt(node.test)[:50]}: reads the file',
+                           res[0], at=func.where(node), detail=res[1])
+    ctx.holds('READ-LOOP', 'valjean.eponine',
+              f'{n_loops} while loop(s) in the reader modules, {n_read} of '
+              f'them read a file; canary: positive flagged, negatives '
+              f'silent', nontrivial=False)
